@@ -28,7 +28,8 @@ def build_factory(cfg):
         spec = ScriptSpec(table(8, R_job, sign), R_job, max_resource_attr=info["mra"], checkpointing=cfg.get("ckpt", True))
         make = make_scripted_local_backend if cfg.get("files") else ScriptedBackend
         backend = make(chooser, spec, cfg["W"], profile=cfg["profile"], fault_budget=cfg.get("F", 0),
-                       faults=("crash",), log=log, late_results=cfg.get("late", True))
+                       faults=("crash",), log=log, late_results=cfg.get("late", True),
+                       **({"midpoll": True} if cfg.get("files") else {}))
         rec = tunerx.make_recorder_callback(log, loop_cap=cfg.get("loop_cap", 150))
         store = StoreResultsCallback()
         tuner = Tuner(trial_backend=backend, scheduler=sched, stop_criterion=StoppingCriterion(**cfg["stop"]),
